@@ -305,7 +305,7 @@ type script struct {
 
 var bgSpec = regexp.MustCompile(`^&([a-zA-Z_0-9]+&)?$`)
 
-var varNames = []string{"A", "AB", "B", "VAR_1", "VAR_12", "x", "_u", "LONGER_NAME9"} // some names are prefixes of others
+var varNames = []string{"A", "AB", "B", "VAR_1", "VAR_12", "x", "_u", "LONGER_NAME9", "DIR", "R", "VAR_R", "RR"} // incl. names that are prefixes of each other and names ending in the letters of the @R suffix // some names are prefixes of others
 
 func genValue(r *rand.Rand) string {
 	switch r.Intn(4) {
